@@ -131,6 +131,8 @@ type Machine struct {
 	divMemo     map[[2]*Term][2]*Term
 	fmtOpaque   int
 	timerRace   bool
+	fixedClock  bool
+	clockTick   uint64
 	posCount    map[string]int
 	delays      []DelaySite
 }
@@ -393,7 +395,7 @@ func (m *Machine) run(fr *frame) {
 		for _, in := range fr.block.Instrs {
 			m.steps++
 			if m.steps > m.MaxSteps {
-				m.end("steps", "step limit")
+				m.end("steps", "step limit @ "+m.where())
 			}
 			switch m.exec(fr, in) {
 			case kJump:
